@@ -24,7 +24,16 @@ def corpus(wd, rng, tag, rows):
     c.execute("CREATE TABLE wr(k TEXT COLLATE NoCase, n INTEGER, v, PRIMARY KEY(k, n)) WITHOUT ROWID")
     c.execute("CREATE TABLE words(w TEXT PRIMARY KEY, n)")
     c.execute("CREATE TABLE small(a, b)")
+    # the same CREATE TABLE text in both files, with different indexes; several automatic indexes
+    c.execute("CREATE TABLE uq(a, b, c, d, UNIQUE(a), UNIQUE(b), UNIQUE(c))")
+    c.execute("CREATE INDEX uq_d ON uq(%s)" % ("d" if tag == "a" else "d, a"))
+    # overflowing rows with a blob in a WITHOUT ROWID table, read through a secondary index
+    c.execute("CREATE TABLE wb(k INTEGER, n INTEGER, body BLOB, PRIMARY KEY(k, n)) WITHOUT ROWID")
+    c.execute("CREATE INDEX wb_n ON wb(n)")
     c.execute("BEGIN")
+    for i in range(60):
+        c.execute("INSERT INTO uq VALUES(?,?,?,?)", (i, "b%d" % i, -i, i % 7))
+        c.execute("INSERT INTO wb VALUES(?,?,?)", (i, i % 6, bytes([(i * 7 + j) % 251 for j in range(500 + 40 * (i % 5))])))
     for i in range(rows):
         c.execute("INSERT INTO big VALUES(?,?,?,?,?)", (i * 2 + 1, i % 13, rng.choice(WORDS) + ("%d" % (i % 5) if i % 3 else ""), [None, i * .5, b"x%d" % i, "t"][i % 4], "p" * (i % 17)))
     for i in range(rows // 2):
@@ -42,13 +51,23 @@ def native_ops(rng, n, rows):
     t = lambda s: sqlfmt.canon(s)
     ops = []
     # first use of every collation spelling happens at the start, in all goroutines at once
-    first = [["iselecteq", "big", "big_b", t(rng.choice(WORDS).upper()), "id,b"],
+    first = [["iselecteq", "uq", "uq_d", "i3", "a,d"], ["iselecteq", "wb", "wb_n", "i2", "k,body"],
+             ["iselecteq", "big", "big_b", t(rng.choice(WORDS).upper()), "id,b"],
              ["pkselect", "wr", t(rng.choice(WORDS) + "1") + ",i1", "*"],
              ["iselecteq", "big", "big_bR", t(rng.choice(WORDS) + "  "), "b,a"]]
     rng.shuffle(first)
     ops += first
     for _ in range(n):
-        k = rng.randrange(12)
+        k = rng.randrange(15)
+        if k == 12:
+            ops.append(["iselecteq", "uq", "uq_d", "i%d" % rng.randrange(8), "a,d"])
+            continue
+        if k == 13:
+            ops.append(["iselecteq", "wb", "wb_n", "i%d" % rng.randrange(7), "k,n,body"])
+            continue
+        if k == 14:
+            ops.append(["iselect", "wb", "wb_n", "body,k"])
+            continue
         if k == 0:
             ops.append(["select", rng.choice(["big", "wr", "small", "words"]), "*"])
         elif k == 1:
